@@ -307,6 +307,22 @@ def run(chk, prog):
                                 v.get(a) is False for a in lookups) and not any(v.get(a) for a in lookups):
                             bad.append(bb)
                             break
+        # a name that merely *looks* qualified (contains a dot) and is returned as written
+        dotted = []
+        for bb, t in rdt.calls():
+            if t['dest']['l'] == 0 and t['args']:
+                pv = tr.prov(rdt, t['args'][0])
+                if any(a.startswith('arg:') for a in pv) and not any(a.startswith(('field:', 'call:')) for a in pv):
+                    for v in gfr.valuations_at(bb, atoms_r):
+                        tables = [a for a in lookups if a != 'in:text' and not a.startswith('call:')]
+                        if v.get('in:text') is True and not any(v.get(a) for a in tables):
+                            dotted.append(bb)
+                            break
+        chk.decide(RT, chk.key(RT, 'EmitScope::resolve_divert_target', 'dotted-name-as-written'), not dotted,
+                   'a dotted name is returned only after a table lookup',
+                   'resolve_divert_target returns a target that contains a dot exactly as written, without having found it in '
+                   'any table: a partially qualified name the validator accepts by its suffix rule (stitch.label from '
+                   'another knot) is emitted as a path that resolves to nothing', rdt.loc(dotted[0]) if dotted else None)
         if chk.anchor(RT, 'returns of the bare target in resolve_divert_target', raw):
             chk.decide(RT, chk.key(RT, 'EmitScope::resolve_divert_target', 'raw-name-fallback'), not bad,
                        'the bare name is returned only after a successful lookup',
@@ -470,6 +486,37 @@ def run(chk, prog):
                                '%s builds an index path into a flow without regard to the flow\'s parameters: for a flow '
                                'with parameters the index addresses a prepended {"temp=": ..} token' % fn.short, fn.loc(bb))
         chk.floor(RS_, 'index paths built by functions that are handed the Flow', n_idx, 1)
+
+    # ---------------- tokens inserted in front of an emitted body are declared to the scope
+    RI = 'C06.inserted-tokens-are-declared'
+    chk.rule(RI, 'A function of the emitter that inserts a token at index 0 of a body it has emitted through emit_nodes '
+             '(the "pop" of a switch or sequence branch) declares it beforehand: the scope handed to emit_nodes has its '
+             'param_offset set to a non-zero value before the call. Index-based paths inside the body (the branches and '
+             'rejoin point of a nested conditional or sequence) are computed from that offset; without it they are one too '
+             'small and resolve to the wrong element.')
+    n_ins = 0
+    for fn in sorted(prog.fns.values(), key=lambda f: f.p):
+        if fn.crate != 'bladeink_compiler' or fn.parent or not fn.short.startswith('emitter::'):
+            continue
+        gfn = cfg(fn)
+        ins = [bb for bb, t in fn.calls() if callee_short(t) == 'Vec::insert' and len(t['args']) >= 3
+               and t['args'][1].get('k') == 'const' and t['args'][1].get('int') == 0]
+        emits = [bb for bb, t in fn.calls() if callee_short(t) in ('emitter::emit_nodes', 'emitter::emit_flow_nodes',
+                                                                    'emitter::emit_nodes_with_continuation')]
+        if not ins or not emits:
+            continue
+        offs = [bb for bb, si, st in fn.stmts() if st['k'] == 'assign' and st['pl'].get('p')
+                and st['pl']['p'][-1].get('n') == 'param_offset'
+                and not (st['rv']['k'] == 'use' and st['rv']['op'].get('k') == 'const' and st['rv']['op'].get('int') == 0)]
+        for eb in emits:
+            if not any(ib in gfn.reachable([eb]) for ib in ins):
+                continue
+            n_ins += 1
+            chk.decide(RI, chk.key(RI, fn.short, '#%d' % n_ins), any(gfn.dominates(ob, eb) or ob == eb for ob in offs),
+                       'the scope\'s param_offset is set before the body is emitted',
+                       '%s emits a body and then inserts a token in front of it without having set the scope\'s '
+                       'param_offset: index paths computed inside the body are off by one' % fn.short, fn.loc(eb))
+    chk.floor(RI, 'bodies that get a token inserted in front', n_ins, 2)
 
     # ---------------- reject unknown
     for name, what in (('ValidationContext::check_target', 'divert target'),
